@@ -204,6 +204,9 @@ def db_pool(r, quick):
     out.append({"kind": "toy"})
     for _ in range(16 if quick else 150):
         out.append({"kind": "generated", "yaml": edge_variant_db(r)})
+    # one build aligned with an insertion and a later deletion of the same length (gapped although both spans are equally long)
+    for _ in range(5 if quick else 40):
+        out.append({"kind": "generated", "yaml": gen_gene.with_balanced_gaps(r, gen_gene.gen_gene(r, offsets=(10000, 20000), pseudogene=r.random() < 0.5, scale=r.choice([1, 2, 2])))})
     return out
 
 
@@ -524,6 +527,22 @@ def tie(ctx):
                             if any(m[1].startswith("del") and "ins" not in m[1] and len(m[1]) > 4 for m in sim.copy_variants(ga, a, mi))]
                 if with_del:
                     copies = [r.choice(with_del), copies[1]]
+            # a build aligned with a balanced pair of gaps: plant an allele with a variant BETWEEN the gaps (where every base of
+            # that build sits at a shifted offset) when the catalogue has one
+            if gd.get("yaml"):
+                import re as _re
+                for g_ in genes:
+                    cg = yaml.safe_load(gd["yaml"])["reference"]["mappings"][g_.genome][4]
+                    mm = _re.fullmatch(r"M(\d+) I(\d+) M(\d+) D(\d+) M(\d+)", cg)
+                    if mm:
+                        a0, k0, mid0 = int(mm.group(1)), int(mm.group(2)), int(mm.group(3))
+                        Lr = len(g_.seq)
+                        lo_, hi_ = (a0 + k0 + 1, a0 + k0 + mid0) if g_.strand > 0 else (Lr - (a0 + k0 + mid0) + 1, Lr - (a0 + k0))
+                        inside = [(a, mi) for a in majors for mi in sorted(ga.alleles[a].minors)
+                                  if any(lo_ <= ga.mutations[(m[0], m[1])][3] + 1 <= hi_ for m in sim.copy_variants(ga, a, mi) if (m[0], m[1]) in ga.mutations)]
+                        if inside:
+                            copies = [r.choice(inside), copies[1]]
+                            stats["pipeline_variant_between_balanced_gaps"] += 1
             # an indel closer than 15 bases to the end of the stretch the reads tile cannot be placed by the realigner (the
             # reference aldy hands it is N-padded beyond the locus; same limit as in the C01 simulator) - and which end of
             # the locus that is depends on the strand: such alleles are not planted
@@ -537,14 +556,22 @@ def tie(ctx):
                     continue
                 copies = [r.choice(oki)] * 2 if (oki and k % 2 == 0) else [r.choice(oki or okc), r.choice(okc)]
             outs = []
+            indep_ = False
             prof_a = sim.simulate_reads(genes[0], [("1", "1.001"), ("1", "1.001")], depth=12)
             smp_a = sim.simulate_reads(genes[0], copies, depth=12)
-            if k % 2 == 0:
+            # (a build aligned with gaps: mirroring reads through the coordinate maps would not give what an aligner reports
+            # for the reads that cross a gap - such databases always get independent alignments)
+            gapped_ = any(("I" in str(c_) or "D" in str(c_)) for g_ in genes for c_ in [yaml.safe_load(gd["yaml"])["reference"]["mappings"][g_.genome][4]]) if gd.get("yaml") else False
+            if k % 2 == 0 or gapped_:
                 # alignments produced against the other build (the simulator writes indels at the leftmost position of
                 # their repeat in the genome it aligns to, as aligners do)
                 prof_b = sim.simulate_reads(genes[1], [("1", "1.001"), ("1", "1.001")], depth=12)
                 smp_b = sim.simulate_reads(genes[1], copies, depth=12)
                 stats["pipeline_independent_alignments"] += 1
+                # the simulator tiles each build's locus on its own: the two read sets cover every base equally but are not
+                # the same fragments, so which sites one fragment links differs between them. Read-phase evidence is
+                # therefore not "the same sample" here and is switched off for both runs (the mirrored mode below keeps it)
+                indep_ = True
             else:
                 # the same alignments mirrored through the coordinate maps (not what an aligner would report for an indel
                 # in a repeat on the other strand: such samples are left to the first mode)
@@ -567,7 +594,7 @@ def tie(ctx):
                 sim.write_bam(pb, pr + sim.neutral_reads(cnr, 24), length=L)
                 sim.write_bam(sb, sr + sim.neutral_reads(cnr, 24), length=L)
                 try:
-                    res = genotype(ypath, sb, pb, output_file=None, cn_region=cnr, genome=genome)
+                    res = genotype(ypath, sb, pb, output_file=None, cn_region=cnr, genome=genome, **({"phase": "false"} if indep_ else {}))
                     sols = list(res.values())[0]
                     outs.append(sorted((s.get_major_diplotype(), round(s.score, 3), tuple(sorted((a.major, a.minor, tuple(sorted(rsid(g, m) for m in a.added)), tuple(sorted(rsid(g, m) for m in a.missing))) for a in s.solution)),
                                         tuple(sorted(s.major_solution.cn_solution.solution.items()))) for s in sols))
